@@ -152,7 +152,7 @@ class Gen:
         if c == 12:
             return [S("nth"), self.seq_(d - 1), r.randrange(3)]        # may be nil: ill-typed uses follow
         if r.random() < 0.5:
-            return r.choice([[S("length"), self.vec_(d - 1)], [S("length"), self.map_(d - 1)], [S("aref"), self.vec_(d - 1), r.randrange(3)],
+            return r.choice([[S("length"), self.vec_(d - 1)], [S("length"), self.map_(d - 1)], [S("length"), self.str_(d - 1)], [S("aref"), self.vec_(d - 1), r.randrange(3)],
                              [S("first"), self.vec_(d - 1)], [S("second"), self.seq_(d - 1)], [S("foldl"), S("add"), 0, self.vec_(d - 1)],
                              [S("get"), self.map_(d - 1), r.choice(self.KEYS)]])
         return [S("car"), self.list_(d - 1)]
@@ -178,6 +178,21 @@ class Gen:
             return [S(r.choice(["select", "reject"])), Q(S("vector")), [S("lambda"), [S("e")], [S(">"), S("e"), self.int_(0)]], self.seq_(d - 1)]
         return [S("if"), self.bool_(d - 1), self.vec_(d - 1), self.vec_(d - 1)]
 
+    def str_(self, d):
+        r = self.rnd
+        if d <= 0 or r.random() < 0.35:
+            return r.choice([STR("a"), STR("bc"), STR(""), STR("a b"), S("s1")])
+        c = r.randrange(5)
+        if c == 0:
+            return [S("concat"), Q(S("string"))] + [self.str_(d - 1) for _ in range(r.randrange(0, 4))]
+        if c == 1:
+            return [S("to-string"), self.int_(d - 1)]
+        if c == 2:
+            return [S("to-string"), r.choice([Q(S("sym")), STR("x"), S("true")])]
+        if c == 3:
+            return [S("if"), self.bool_(d - 1), self.str_(d - 1), self.str_(d - 1)]
+        return [S("let"), [[S("t"), self.str_(d - 1)]], [S("concat"), Q(S("string")), S("t"), S("t")]]
+
     def seq_(self, d):
         return self.vec_(d) if self.rnd.random() < 0.5 else self.list_(d)
 
@@ -201,7 +216,9 @@ class Gen:
     def data_(self, d):
         """an expression whose VALUE is a vector, a map or a mixed structure: printed by the probe"""
         r = self.rnd
-        c = r.randrange(6)
+        c = r.randrange(7)
+        if c == 6:
+            return r.choice([self.str_(d), [S("list"), self.str_(d - 1), [S("to-string"), self.int_(d - 1)]], [S("vector"), self.str_(d - 1)]])
         if c == 0:
             return self.vec_(d)
         if c == 1:
@@ -239,6 +256,8 @@ class Gen:
                                  [S("empty?"), self.vec_(d - 1)], [S("empty?"), self.map_(d - 1)],
                                  [S("equal?"), self.vec_(d - 1), self.seq_(d - 1)], [S("equal?"), self.map_(d - 1), self.map_(d - 1)],
                                  [S("key?"), self.map_(d - 1), r.choice(self.KEYS)],
+                                 [S("string="), self.str_(d - 1), self.str_(d - 1)], [S("empty?"), self.str_(d - 1)], [S("equal?"), self.str_(d - 1), self.str_(d - 1)],
+                                 [S("string?"), r.choice([self.str_(d - 1), self.int_(d - 1)])],
                                  [S(r.choice(["any?", "all?"])), [S("lambda"), [S("e")], [S(">"), S("e"), 1]], self.vec_(d - 1)]])
             return [S(r.choice(["float?", "int?", "number?"])), self.num_(d - 1)]
         if c < 2:
@@ -282,7 +301,8 @@ class Gen:
 
     def illtyped(self, d):
         r = self.rnd
-        return r.choice([[S("car"), self.vec_(d)], [S("cdr"), self.vec_(d)], [S("get"), self.vec_(d), 0], [S("get"), self.map_(d), 1], [S("aref"), self.vec_(d), 7],
+        return r.choice([[S("string="), self.str_(d), self.int_(d)], [S("concat"), Q(S("string")), self.str_(d), self.int_(d)], [S("to-string"), self.list_(d)], [S("string="), self.str_(d)],
+                         [S("car"), self.vec_(d)], [S("cdr"), self.vec_(d)], [S("get"), self.vec_(d), 0], [S("get"), self.map_(d), 1], [S("aref"), self.vec_(d), 7],
                          [S("aref"), self.list_(d), 0], [S("nth"), self.vec_(d), -1], [S("sorted-map"), STR("a")], [S("sorted-map"), 1, 2], [S("keys"), self.vec_(d)],
                          [S("cons"), 1, self.vec_(d)], [S("foldl"), S("add"), 0, self.map_(d)], [S("first"), self.map_(d)], [S("map"), Q(S("sorted-map")), S("inc"), self.list_(d)],
                          [S("+"), self.list_(d), 1], [S("car"), self.int_(d)], [S("length"), self.int_(d)], [self.int_(d), 1],
@@ -293,7 +313,7 @@ class Gen:
 def random_program(rnd):
     g = Gen(rnd)
     forms = [[S("set"), Q(S("a")), rnd.randrange(5)], [S("set"), Q(S("b")), rnd.randrange(5)], [S("set"), Q(S("l1")), Q([3, 1, 2])],
-             [S("set"), Q(S("v1")), [S("vector"), 4, 0, 9]], [S("set"), Q(S("m1")), [S("sorted-map"), STR("b"), 2, Q(S("a")), 1]],
+             [S("set"), Q(S("s1")), STR("xy")], [S("set"), Q(S("v1")), [S("vector"), 4, 0, 9]], [S("set"), Q(S("m1")), [S("sorted-map"), STR("b"), 2, Q(S("a")), 1]],
              [S("defun"), S("inc"), [S("n")], [S("+"), S("n"), 1]],
              [S("defun"), S("add"), [S("p"), S("q")], [S("+"), S("p"), S("q")]],
              [S("defun"), S("make-counter"), [], [S("let"), [[S("n"), 0]], [S("lambda"), [], [S("set!"), S("n"), [S("+"), S("n"), 1]], S("n")]]],
